@@ -11,7 +11,8 @@ import (
 )
 
 const rule = "round trip: real ErasureCode + ReconstructAndJoinShards on generated (blob, k, m, erasure set); " +
-	"non-trivial when exactly m or m+1 shards are erased or the blob length is not a multiple of k, distinct by (k, m, len, #erased, pattern class). " +
+	"non-trivial when exactly m or m+1 shards are erased or the blob length is not a multiple of k, distinct by (k, m, len, #erased, pattern class); " +
+	"also run as call sequences in one process over configuration families (same decimal string str(k)+str(m), exchanged pair, same total, same k, same m; forwards, backwards, interleaved encode/join/reconstruct). " +
 	"assignment: real ShardIndicesForValidator against the model fed with the swap stream recorded from rand.Shuffle with the same seed; " +
 	"non-trivial when 0 < threshold < n, distinct by (address, threshold, n). " +
 	"binding: real Msg/SubmitValidityProof with real Groth16 proofs; non-trivial when at least one pair reaches verification, distinct by (indices, proof ids, hash ids)"
@@ -97,6 +98,7 @@ func Run(seed int64, n int, outDir string) error {
 	for i := 0; i < nMal; i++ {
 		c.rsMalformed()
 	}
+	c.rsSequences(n / 80)
 	if err := c.shuffleCases(nShuf); err != nil {
 		return err
 	}
